@@ -94,10 +94,41 @@ fn list(t: &T, b: u8, path: &mut Vec<u8>, out: &mut Vec<C>) {
     T::N(k) => for i in 0..4 { path.push(i as u8); list(&k[i], b, path, out); path.pop(); }
   }
 }
+/// Cells whose NUMBERS coincide or follow each other across depths: (d, n - 1) then (d', n) with d' < d, the same number n at
+/// two depths, (d, n) and (d', n + 1), numbers around a power of 4 and around the last cell of a depth. Code that compares cell
+/// numbers or raw values without their depth goes wrong exactly there. The list is made well formed (z-order, no overlap).
+fn coincidence_cells(rng: &mut Rng, cfg: &GenCfg) -> Vec<C> {
+  let mut cand: Vec<(u8, u64)> = Vec::new();
+  let dmax = cfg.dmax;
+  for _ in 0..(1 + rng.below(3)) {
+    let d1 = rng.below(dmax as u64 + 1) as u8;
+    let d2 = rng.below(dmax as u64 + 1) as u8;
+    let (dlo, dhi) = (d1.min(d2), d1.max(d2));
+    let nmax = 12u64 << (2 * dlo as u32);
+    let n = match rng.below(5) { 0 => 1 + rng.below(8), 1 => nmax - 1 - rng.below(3.min(nmax - 1)), 2 => 1u64 << (2 * rng.below(dlo as u64 + 1) as u32), _ => 1 + rng.below(nmax - 1) }.min(nmax - 1).max(1);
+    match rng.below(4) {
+      0 => { cand.push((dhi, n - 1)); cand.push((dlo, n)); }              // (d, n - 1) then (d', n), d' <= d
+      1 => { cand.push((dhi, n)); cand.push((dlo, n)); }                  // the same number at two depths
+      2 => { cand.push((dlo, n - 1)); cand.push((dhi, n)); }              // (d', n - 1) and (d, n), the deeper one second
+      _ => { cand.push((dhi, n)); if n + 1 < nmax { cand.push((dlo, n + 1)); } cand.push((dlo, n - 1)); }
+    }
+  }
+  // z-order on (base cell, path); drop a cell overlapping one already kept
+  let mut cells: Vec<C> = cand.into_iter().map(|(d, n)| { let (b, p) = path_of_hash(d, n); C { b: b as u8, p, f: !cfg.flags || rng.bool() } }).collect();
+  cells.sort_by(|x, y| (x.b, &x.p).cmp(&(y.b, &y.p)));
+  let mut out: Vec<C> = Vec::new();
+  for c in cells {
+    let overlaps = out.iter().any(|o| o.b == c.b && { let k = o.p.len().min(c.p.len()); o.p[..k] == c.p[..k] });
+    if !overlaps { out.push(c); }
+  }
+  out.sort_by(|x, y| (x.b, &x.p).cmp(&(y.b, &y.p)));
+  out
+}
 pub fn gen_cells(rng: &mut Rng, cfg: &GenCfg) -> Vec<C> {
   let mut out = Vec::new();
-  let style = rng.below(10);
+  let style = rng.below(12);
   match style {
+    10 | 11 => { return coincidence_cells(rng, cfg); }
     0 => {} // empty
     1 => { for b in 0..12 { out.push(C { b, p: vec![], f: true }); } } // whole sky
     2 => { // a single deepest cell: first, last or random
